@@ -1231,8 +1231,84 @@ def r7(ctx):
                              f"loaded for the previous incarnation keeps being used", clr.describe(wit))
 
 
+# --------------------------------------------------------------------------- R8
+
+def r8(ctx):
+    """Registration of a region with the world manager and its release at teardown are unconditional."""
+    repo = ctx.repo
+    ctx.rule("C14.R8", "region registration symmetry: a RegionHandshake always (re)registers the region with the world "
+                       "object manager, teardown always releases it (given a handle); object-kind dispatch tables "
+                       "consulted by update normalisation are total over PCode")
+    n = 0
+    for f, c in fast_callers_of(repo, "track_region_objects"):
+        if not f.module.rel.startswith("hippolyzer/lib/") or f.module.rel.endswith("test_utils.py"):
+            continue
+        hs = None
+        for a in ancestors(c):
+            if isinstance(a, ast.If) and any(
+                    pol and isinstance(e, ast.Compare) and len(e.ops) == 1 and isinstance(e.ops[0], ast.Eq)
+                    and isinstance(e.comparators[0], ast.Constant) and e.comparators[0].value == "RegionHandshake"
+                    and (ap(e.left) or "").endswith(".name") for e, pol in atoms(a.test, True)) \
+                    and any(x is c for s_ in a.body for x in ast.walk(s_)):
+                hs = a
+                break
+        if hs is None:
+            ctx.note(f"C14.R8: {f.qual} registers its region outside a RegionHandshake branch ({ctx.w(f, c)}): not checked")
+            continue
+        n += 1
+        own = {id(e) for e, _ in atoms(hs.test, True)}
+        harg = ap(c.args[0]) if c.args else None
+
+        def arg_set(e, pol):    # the handle passed to the call is itself known to be set
+            t = is_none_test(e)
+            return (t is not None and t[0] == harg and t[1] != pol) or (ap(e) == harg and pol)
+        extra = [(e, p_) for e, p_ in facts(c, hs) if id(e) not in own and not arg_set(e, p_)]
+        ctx.ob("C14.R8", f"{f.qual}: every RegionHandshake registers the region with the world object manager",
+               not extra and not any(isinstance(a, (ast.For, ast.While, ast.Try)) for a in ancestors(c)
+                                     if any(a is x for x in ast.walk(hs))),
+               ctx.w(f, c), f"registration is subject to {[(norm(e), p) for e, p in extra]}: the world manager drops the "
+                            f"region at teardown, so a later handshake that fails this test leaves the region's updates "
+                            f"unhandled (`unknown region`) for good")
+    ctx.floor("C14.R8", "region registrations in a RegionHandshake branch", n, 1)
+    # teardown
+    clr = Fn(ctx, "ClientObjectManager.clear", OM)
+    ucs = find_calls(clr.tree, "untrack_region_objects", into_defs=False)
+    ctx.floor("C14.R8", "untrack_region_objects calls in ClientObjectManager.clear", len(ucs), 1)
+    for c in ucs:
+        harg = ap(c.args[0]) if c.args else None
+        extra = []
+        for e, pol in facts(c, clr.tree):
+            t = is_none_test(e)
+            if (t and t[0] == harg and t[1] != pol) or (ap(e) == harg and pol):
+                continue
+            extra.append((norm(e), pol))
+        ctx.ob("C14.R8", "ClientObjectManager.clear releases the region from the world object manager whenever it has a handle",
+               not extra, clr.w(c), f"release is subject to {extra}: a torn-down region stays registered (its manager is "
+                                    f"a dead proxy) or its objects stay in the full-id index")
+    # PCode dispatch tables used by normalisation
+    from ..consteval import enum_members
+    tm = repo.module("hippolyzer/lib/base/templates.py")
+    pcodes = set(enum_members(repo, repo.cls("PCode", "hippolyzer/lib/base/templates.py")))
+    nt = 0
+    for d in [x for x in ast.walk(tm.tree) if isinstance(x, ast.Dict)]:
+        keys = [ap(k) for k in d.keys if k is not None]
+        pk = {k.split(".")[-1] for k in keys if k and k.split(".")[-2:-1] == ["PCode"]}
+        if not pk or not isinstance(parent(d), ast.Call):
+            continue
+        nt += 1
+        has_default = any(k and k.split(".")[-1] == "MISSING" for k in keys)
+        missing = sorted(pcodes - pk)
+        owner = ".".join(reversed([a.name for a in ancestors(d) if isinstance(a, (ast.ClassDef,) + FUNC_TYPES)])) or "<module>"
+        ctx.ob("C14.R8", f"templates.py: PCode dispatch table in {owner} is total", has_default or not missing,
+               f"{tm.rel}:{d.lineno}",
+               f"no default row and no row for {missing}: decoding the State of such an object raises inside the "
+               f"object-update handler")
+    ctx.floor("C14.R8", "PCode dispatch tables", nt, 1)
+
+
 def run(ctx):
     discover_futures_table(ctx)
+    r8(ctx)
     r1(ctx)
     r2(ctx)
     r2_kill_blocks(ctx)
